@@ -358,7 +358,7 @@ def gen_iteration_directed(seed, rng):
     }
 
 
-def gen_spec(seed):
+def _gen_spec(seed):
     """Everything about a run except the schedule, which the seeded scheduler decides on the fly."""
     rng = random.Random(seed)
     if core.Z.cov and rng.random() < 0.2:
@@ -456,6 +456,15 @@ def gen_spec(seed):
     }
 
 
+def gen_spec(seed):
+    spec = _gen_spec(seed)
+    # the callers of some runs keep one instance of every object they serialize and of every decoded document
+    # they pass to DictDecoder (an own stream of choices, so that the rest of the run is what it was before)
+    if random.Random(seed ^ 0x5A17).random() < 0.15:
+        spec["share_inputs"] = True
+    return spec
+
+
 # ---------------------------------------------------------------- one run (executes in a pristine grandchild)
 def admissible(op, m0, m1):
     """Late-module sets the call may legitimately have observed."""
@@ -472,6 +481,7 @@ def run_spec(spec, R, timeout=20.0):
     from xsdata.formats.dataclass.context import XmlContext
 
     core.child_init()
+    O.SHARED_INPUTS = {} if spec.get("share_inputs") else None
     seed = spec.get("seed", 0)
     explicit = spec.get("schedule")
     rng = None if explicit is not None else random.Random(f"{seed}/sched")
